@@ -1,14 +1,14 @@
-\* partition ring: 3 partitions in every state / state time, LRU cache of capacity 2 over 2 identifiers x 2 sizes,
-\* look-back queries at any time in any order, one update of any kind (incl. owners only)
+\* partition ring, validity windows: 3 partitions in every state / state time, LRU cache of capacity 1 over 2 sizes,
+\* look-back queries at any time in any order
 CONSTANTS
   Part = {1, 2, 3}
   Owners = {1}
-  PIdent = {1, 2}
+  PIdent = {1}
   PSizes = {1, 2}
   PLookbacks = {1}
   PTimes = {2, 3, 4, 5}
-  Capacity = 2
-  PMaxUpd = 1
+  Capacities = {1}
+  PMaxUpd = 0
   PStates = {"PENDING", "ACTIVE", "INACTIVE"}
   PStamps = {2, 3}
   PToks = {0, 1}
